@@ -478,7 +478,7 @@ func run(c *mc.Ctx, r *mc.Result) {
 		add(func(r *mc.Result) { runBodies(c, r, "nested", c02.NestPool(), 2, 2) })
 		add(func(r *mc.Result) { runBodies(c, r, "hosts", c02.HostPool(), 2, 2) })
 	} else {
-		add(func(r *mc.Result) { runPool(c, r, "prefixes", c02.PoolFor(true), 3, 4, 400000) })
+		add(func(r *mc.Result) { runPool(c, r, "prefixes", c02.PoolFor(true), 3, 3, 400000) })
 		add(func(r *mc.Result) { runPool(c, r, "methods", c02.MethodPool(), 4, 4, 100000) })
 		add(func(r *mc.Result) { runPool(c, r, "siblings", c02.SiblingPool(), 6, 5, 60000) })
 		add(func(r *mc.Result) { runPool(c, r, "nested", c02.NestPool(), 6, 5, 60000) })
